@@ -207,14 +207,14 @@ def run(ctx):
     if ctx.replay:
         return replay(ctx)
     quick = ctx.tier == "quick"
-    nbase = int(os.environ.get("C05_NBASE", "150" if quick else "1200"))
-    per_class = 1 if quick else 2
+    nbase = int(os.environ.get("C05_NBASE", "150" if quick else "600"))
+    per_class = 1
     # quick: 4 of the 9 classes per program (rotating), so that every class gets ~nbase*4/9 mutants
     classes_per_prog = int(os.environ.get("C05_CLASSES_PER_PROG", "4" if quick else "9"))
-    ncodegen = int(os.environ.get("C05_NCODEGEN", "12" if quick else "120"))
+    ncodegen = int(os.environ.get("C05_NCODEGEN", "12" if quick else "60"))
     # the command-line leg runs the (unoptimised) debug build of `dora`: ~10 s CPU per program; sampled in quick
-    ncli_base = int(os.environ.get("C05_NCLI_BASE", "30" if quick else "100000"))
-    ncli_mut = int(os.environ.get("C05_NCLI_MUT", "10" if quick else "100000"))     # per class
+    ncli_base = int(os.environ.get("C05_NCLI_BASE", "30" if quick else "200"))
+    ncli_mut = int(os.environ.get("C05_NCLI_MUT", "10" if quick else "100"))       # per class
 
     # (a) theorems
     po = C.proof_obligations(ctx, PROP_MODULE, PROP_FILE)
